@@ -301,6 +301,11 @@ def specC06 (inp impl : Json) : String :=
 /-- C07: the embedded SQL has no star left, resolves unambiguously, and returns exactly the columns the
 source statement's stars denote -/
 def specC07 (inp impl : Json) : String :=
+  -- a statement whose only defect is the text star expansion wrote: the explicit list would have compiled
+  if jstr impl "err" == "other" && (jstr impl "msg").startsWith "edited query syntax is invalid" &&
+     !((readNode (jobj inp "ast")).search (fun n => n.isKind "ResTarget" && (n.get "Val").isKind "ColumnRef" && hasStarRef (n.get "Val"))).isEmpty &&
+     (jarr inp "names").isEmpty then
+    s!"fail:star expansion produced SQL the engine's own parser rejects: {jstr impl "msg"}" else
   if jstr impl "err" != "" then "na" else
   let sc := readSemCase inp impl
   let srcStars := sc.src.search (fun n => n.isKind "ResTarget" && (n.get "Val").isKind "ColumnRef" && hasStarRef (n.get "Val"))
